@@ -430,7 +430,7 @@ func c17Probe(ctx *core.Ctx, ti int, t *rt.Table, router string, twin, filtered 
 // c18: the two routers agree wherever both are specified.
 func c18(ctx *core.Ctx) {
 	quietLogs()
-	ctx.Rule("twin containers built from the same table on the common fragment (nested literal roots; literal and {v} route segments; Consumes/Produces; conditions), differing only in router; every request (hits, near misses, trailing slash, Content-Type/Accept grammar, body or none) must give the same status, route function, parameter values and Allow set. Non-trivial = a request that reaches route level in at least one router; distinct by (outcome class, template shape or request class).")
+	ctx.Rule("twin containers built from the same table on the common fragment (nested literal roots; literal and {v} route segments; Consumes/Produces; conditions), differing only in router; every request (hits, near misses, trailing slash, Content-Type/Accept grammar, body or none) must give the same status, route function, parameter values and Allow set. Non-trivial = a request that reaches route level in at least one router; distinct by (outcome class, template shape or request class). Every third table may repeat a variable name inside a template (which value is bound is not specified; the routers must agree). Every sixth table lives on WebServices with dynamic routes and loses a route (RemoveRoute on both twins) between two passes.")
 	ctx.Assume("paths are clean (no empty segments): the routers tokenise unclean paths differently and the property is silent there (DESIGN §4.2)")
 	tables := ctx.N(5000, 400000)
 	perTable := ctx.N(40, 60)
@@ -446,6 +446,7 @@ func c18(ctx *core.Ctx) {
 		o.Conds = true
 		o.StarMedia = true
 		o.Twins = true
+		o.DupNames = ti%3 == 1
 		if m := ti % 40; m == 14 || m == 15 {
 			// table shapes beyond what the small tables reach (long templates, 33-40 services, long media lists, many conditions, 130 routes)
 			ctx.SetAdd("scaled_table_shapes", rt.Scale(&o, ti/40))
